@@ -38,7 +38,11 @@ def handle_call(expr: astroid.Call, context: dict[str, ast.stmt] | None = None) 
     for func in infer(expr.func):
         if not isinstance(func, astroid.FunctionDef):
             continue
-        code = f'def f({func.args.as_string()}):0'
+        try:
+            code = f'def f({func.args.as_string()}):0'
+        except ValueError:
+            # a default value that cannot be rendered (too many digits)
+            continue
         func_ast = ast.parse(code).body[0]
         assert isinstance(func_ast, ast.FunctionDef)
         for cinfo in get_contracts(func):
